@@ -479,6 +479,12 @@ def l2_suite(profile, quick=60, thorough=1500, native=True, name=None, extra_mon
             a2, pairs = cmpmod.split_native(a)
             iops = [x.split() for x in cmpmod.canon(a2, False).split(' ; ')]
             mops = [x.split() for x in cmpmod.canon(mline, False).split(' ; ')]
+            if ' F Dm ' in c or ' F Dn ' in c:
+                # a vacuum interrupted between its node deletions and its version deletions leaves
+                # version objects without nodes; HOW MANY depends on which nodes versions share (the
+                # model keeps one node per tree): the bucket walk is not compared in such histories
+                cut = lambda t: t[:t.index('RW')] if 'RW' in t else t
+                iops, mops = [cut(t) for t in iops], [cut(t) for t in mops]
             body = c.split(' ', 2)[2] if c.count(' ') >= 2 else c
             if body not in seen:
                 seen.add(body)
@@ -652,6 +658,11 @@ def rolled_back_insert_excuse(case, j, got, want):
         return o['key'] in r
     if o['kind'] == 'commit':
         return bool(touched.get(o['conn'], set()) & r)
+    if o['kind'] == 'vacuum' and 'VB' in got and 'VA' in got and 'VB' in want and 'VA' in want:
+        # the rows the vacuuming connection sees before its vacuum: as for a SELECT
+        got = ['SA'] + got[got.index('VB') + 1:got.index('VA')]
+        want = ['SA'] + want[want.index('VB') + 1:want.index('VA')]
+        o = dict(o, kind='sel')
     if o['kind'] == 'sel':
         if len(got) >= 2 and got[1] == 'err' and o['conn'] in failed_commit:
             # the leaf of an INSERT whose commit failed was never stored, but mast marked it clean
